@@ -293,6 +293,7 @@ theorem creditFor_cases (ord : List Group → List Group) (w : World) (st : Step
       creditOf (finalOf (deliver ord w.vals w.s (.claim m)).1.oracle id) = some c ∧ creditFor ord w st id = [c] := by
   cases st with
   | setVals v => left; rfl
+  | restart => left; rfl
   | msg m =>
     cases m with
     | claim cm =>
@@ -320,6 +321,7 @@ theorem step_prophecy_stable (ord : List Group → List Group) (w : World) (st :
     getProphecy (stepWorld ord w st).s.oracle.prophecies id = getProphecy w.s.oracle.prophecies id := by
   cases st with
   | setVals v => rfl
+  | restart => rfl
   | msg m => exact deliver_nonpending_stable ord w.vals w.s m id h
 
 /-- a step that credits for `id` finds the prophecy pending and leaves it SUCCESS -/
